@@ -139,7 +139,8 @@ class C10(scen.WorldProp):
             sc = {"start": 1000.0, "end": end, "tower_size": N, "events": events,
                   "on_join": scen.humans_on_join(humans),
                   "bot": scen.bot_cfg(spec, up_down_in=udi, stop_at_rounds=rng.random() < 0.2),
-                  "rhythm": scen.rhythm_cfg(kind, inertia=rng.choice([0.0, 0.5, 1.0]), peal_speed=ps)}
+                  "rhythm": scen.rhythm_cfg(kind, inertia=rng.choice([0.0, 0.5, 1.0]), peal_speed=ps,
+                                            max_bells=rng.choice([15, 15, 15, 30, 1, 2, 3, 4, 5]))}
             yield {"k": "world", "scenario": sc, "humans": humans, "seed": rng.getrandbits(32), "faults": faults,
                    "silent": kind == "regression" and rng.random() < 0.3, "t0": t0}
 
